@@ -6,6 +6,7 @@ package internal
 
 // the function being de-duplicated: arbitrary code that does not touch the group (A-CALLBACK)
 func (g *Group[K, V]) fspec_doCall_fn() (v V, err error) {
+	flag("may_unwind") // it may also panic or call runtime.Goexit instead of returning
 	requires("no_group_lock", !held(g.mu))
 	return
 }
@@ -22,6 +23,9 @@ func (g *Group[K, V]) spec_doCall(c *call[V], key K, fn func() (V, error)) {
 	flag("may_panic") // a panic of fn is re-raised after the bookkeeping (propagation itself is not modelled)
 	requires("registered", c != nil && g.m != nil)
 	ensures("always_entry_removed", !has(g.m, key) || g.m[key] != c)
+	// C13: a Goexit of the loader reaches the waiting callers: whatever the (pooled, possibly reused) call record
+	// held before, it now reports errGoexit
+	ensures("always_goexit_reported", imp(goexited(), c.err == errGoexit))
 	ensures("others_kept", all(func(k K) bool { return imp(k != key, has(g.m, k) == old(has(g.m, k)) && g.m[k] == old(g.m[k])) }))
 }
 
@@ -30,5 +34,13 @@ func (g *Group[K, V]) spec_doCall(c *call[V], key K, fn func() (V, error)) {
 func (g *Group[K, V]) spec_Do(key K, fn func() (V, error)) (v V, err error, shared bool) {
 	flag("may_panic")
 	ensures("table_clean", imp(!old(has(g.m, key)), !has(g.m, key) || g.m[key] == old(g.m[key])))
+	return
+}
+
+// trusted (body not verified: it trims a stack trace): the error wrapping a recovered panic value is a fresh
+// non-nil error, different from the Goexit marker
+func spec_newPanicError(v interface{}) (err error) {
+	flag("trusted")
+	ensures("nonnil", err != nil && err != errGoexit)
 	return
 }
